@@ -95,8 +95,8 @@ Proof. exact vec_reserve_witness. Qed.
 Theorem string_repeat_checks_late_refuted :
   op_repeat w_cap w_mem 16 100000 = (ROom, w_mem, [EHost 1600000; ECheck 1600024 false]) /\
   fst (fst (op_repeat w_cap w_mem 16 100000000000)) = RAbort /\
-  fst (fst (op_pad w_cap w_mem 16 (-1))) = RPanic /\
-  fst (fst (op_pad w_cap w_mem 16 100000000000000)) = RAbort.
+  fst (fst (op_pad true w_cap w_mem 16 (-1))) = RPanic /\
+  fst (fst (op_pad true w_cap w_mem 16 100000000000000)) = RAbort.
 Proof. exact repeat_late_check_witness. Qed.
 Theorem string_repeat_ok_guarded : forall (cap : N) (m : mem) (sl : N) (n : Z), Inv m ->
   let '(r, m', _) := op_repeat cap m sl n in Inv m' /\ (r = ROk \/ m' = m).
